@@ -125,6 +125,11 @@ def case_paths(ctx, collide=None):
                     spec = {"ok": want}
                     mexp = {"field": [nest, f]}
                 ctx.case("names.getitem", inp, real, None, spec, features=feats)
+                # the known-column tests the operations share (used e.g. by reduce to tell columns from extra arguments)
+                mk = ctx.driver.call("names.known", path=p, clean=ct, schema=sj)["model"]
+                ctx.case("names.known", inp, call_real(lambda: {"column": bool(nf._is_known_column(p)),
+                                                                "hierarchical": bool(nf._is_known_hierarchical_column(p))}),
+                         mk, None, features=feats)
                 ctx.case("names.getitem.resolution", inp, {"ok": mexp if "ok" in real else {"err": True}}, {"ok": mg if "err" not in mg else {"err": True}},
                          None, features=feats)
                 if shadowed:
